@@ -20,3 +20,37 @@ package cluster
 //@ invariant [visited] forall i int :: 0 <= i && i < len(ids) ==> $visited[ids[i]] && has(this.addresses, ids[i])
 //@ invariant [distinct] distinctIds(ids)
 //@ invariant [fresh] fresh(ids)
+
+// ---------------------------------------------------------------------------------------------
+// C20: the address book
+
+//@ func (*google.golang.org/grpc.ClientConn).Close
+//@ props C20
+//@ assume
+//@ modifies nothing
+
+//@ func (*cluster.Conn).AddNode
+//@ props C20
+//@ requires [book] this.addresses != nil
+//@ ensures [listed] has(this.addresses, id)
+//@ ensures [address-of-new-member] !old(has(this.addresses, id)) ==> this.addresses[id] == address
+//@ ensures [existing-kept] old(has(this.addresses, id)) ==> this.addresses[id] == old(this.addresses[id])
+//@ ensures [others] forall j uint64 :: j != id ==> has(this.addresses, j) == old(has(this.addresses, j)) && this.addresses[j] == old(this.addresses[j])
+//@ modifies map(this.addresses)
+
+//@ func (*cluster.Conn).RemoveNode
+//@ props C20
+//@ requires [book] this.addresses != nil && this.conns != nil && forall j uint64 :: has(this.conns, j) ==> this.conns[j] != nil
+//@ ensures [unlisted] !has(this.addresses, id)
+//@ ensures [others] forall j uint64 :: j != id ==> has(this.addresses, j) == old(has(this.addresses, j)) && this.addresses[j] == old(this.addresses[j])
+//@ modifies map(this.addresses), map(this.conns)
+
+// Nodes: a fresh copy of the book (callers may mutate the copy)
+//@ func (*cluster.Conn).Nodes
+//@ props C20
+//@ requires [book] this.addresses != nil
+//@ ensures [copy] ret != nil && fresh(ret) && forall j uint64 :: has(ret, j) == has(this.addresses, j) && (has(ret, j) ==> ret[j] == this.addresses[j])
+//@ modifies nothing
+//@ loop 1
+//@ invariant [copying] nodes != nil && fresh(nodes) && forall j uint64 :: has(nodes, j) == $visited[j] && (has(nodes, j) ==> nodes[j] == this.addresses[j])
+//@ invariant [visited-sub] forall j uint64 :: $visited[j] ==> has(this.addresses, j)
